@@ -6,7 +6,7 @@ import shutil
 import checklib as cl
 from props import server_common as S
 
-CASES = [("しんかこか", "新過去か", "しんかこ", "新過去"), ("しんかこか", "新過去化", "しんかこか", "新過去化"),
+CASES = [("おさけ", "御酒", "おさけ", "御酒"), ("しんかこか", "新過去か", "しんかこ", "新過去"), ("しんかこか", "新過去化", "しんかこか", "新過去化"),
          ("おやま", "御山", "おやま", "御山"), ("やまか", "山化", "やまか", "山化")]
 
 
@@ -41,6 +41,18 @@ def run_part(run, fails, stats):
             if d is None or line not in d["user_entries"]:
                 fails.append(("compound-not-in-user-dictionary", {"kind": "compound-not-in-user-dictionary"}, dict(w, user_entries=d and d["user_entries"])))
             # a plain candidate (no affix) teaches no word
+            if inp == "おさけ":
+                # a second compound with the same reading must be learned as well (homophones)
+                res3 = r.conv("normal", "おさけ")
+                ts3 = S.texts(res3) or []
+                if "御鮭" in ts3:
+                    r.confirm(len(r.sids) - 1, str(ts3.index("御鮭")), 1500)
+                    stats["compounds_confirmed"] += 1
+                    r.settle(2)
+                    d3 = r.dump()
+                    if d3 is None or "おさけ\t御鮭\t/一般名詞/" not in d3["user_entries"]:
+                        fails.append(("compound-not-in-user-dictionary", {"kind": "compound-not-in-user-dictionary"},
+                                      {"input": "おさけ", "confirmed": "御鮭", "after": "御酒 was learned first", "user_entries": d3 and d3["user_entries"]}))
             res2 = r.conv("normal", "くるまで")
             n_before = len((r.srv.dump() or {"user_entries": []})["user_entries"])
             r.confirm(len(r.sids) - 1, "0", 2000)
